@@ -24,21 +24,30 @@ EXTENDS Naturals, Sequences, FiniteSets, TLC, Json
 CONSTANT Full       \* TRUE: the whole product; FALSE: flags/overrides paired sparsely (quick tier)
 
 (***************************************************************************)
-(* Programs.  A diagnostic kind stands for one statement of the generated  *)
-(* file that yields exactly one diagnostic:                                *)
+(* Programs.  A diagnostic kind stands for statement(s) of the generated   *)
+(* file that yield known diagnostics:                                      *)
 (*   E  rule "re" (function/arguments)          default ERROR              *)
-(*   W  rule "rw" (subroutine/boilerplate-macro) default WARNING           *)
+(*   W  rule "rw" (subroutine/boilerplate-macro) default WARNING, twice    *)
+(*      (two lifecycle subroutines without their macro)                    *)
 (*   I  rule "ri" (error-statement/code)        default INFO               *)
 (*   X  rule "rx" (function/argument-type) ERROR, under falco-ignore-next-line *)
 (* main: "vcl" | "syntax" (syntax error) | "snip_scope" | "snip_noscope"   *)
-(* inc : "none" | "ok" | "diag" (included module holds one E) |            *)
-(*       "syntax" (included module has a syntax error) | "missing"         *)
+(* incs: sequence of include statements, each [kind, at]:                  *)
+(*   kind "ok" | "diag" (module holds one E) | "syntax" (module has a      *)
+(*        syntax error) | "missing" | "nest" (a good module whose first    *)
+(*        statement includes a module with a syntax error)                 *)
+(*   at   "root" (include at root level, module = declarations) |          *)
+(*        "sub" (include inside vcl_recv, module = statement list)         *)
+(* Two includes in every order exercise "any one failure suffices".        *)
 (***************************************************************************)
 DiagKinds == {"E", "W", "I", "X"}
+IncKinds == {"ok", "diag", "syntax", "missing", "nest"}
+Incs == { [kind |-> k, at |-> a] : k \in IncKinds, a \in {"root", "sub"} }
 Programs ==
-  { [main |-> "vcl", diags |-> D, inc |-> i] : D \in SUBSET DiagKinds, i \in {"none", "ok", "diag", "syntax", "missing"} }
-  \cup { [main |-> "syntax", diags |-> {}, inc |-> i] : i \in {"none", "ok"} }
-  \cup { [main |-> m, diags |-> D, inc |-> "none"] : m \in {"snip_scope", "snip_noscope"}, D \in SUBSET {"E", "X"} }
+  { [main |-> "vcl", diags |-> D, incs |-> i] : D \in SUBSET DiagKinds, i \in {<<>>} \cup { <<x>> : x \in Incs } }
+  \cup { [main |-> "vcl", diags |-> D, incs |-> <<x, y>>] : D \in {{}, {"E"}}, x \in Incs, y \in Incs }
+  \cup { [main |-> "syntax", diags |-> {}, incs |-> i] : i \in {<<>>, << [kind |-> "ok", at |-> "root"] >>} }
+  \cup { [main |-> m, diags |-> D, incs |-> <<>>] : m \in {"snip_scope", "snip_noscope"}, D \in SUBSET {"E", "X"} }
 
 RuleNames == {"re", "rw", "ri", "rx", "rs", "rm"}   \* rs = snippet-scope-required, rm = include/module-load-failed
 Levels == {"ERROR", "WARNING", "INFO", "IGNORE"}
@@ -66,17 +75,23 @@ WellFormedFlags(f) == f.verb = 0 => f.vsrc = "cli"
 (* JSON document; it is not the subject of C04.                            *)
 (***************************************************************************)
 SetToSeq(X) == LET RECURSIVE F(_) F(Y) == IF Y = {} THEN <<>> ELSE LET y == CHOOSE z \in Y : TRUE IN <<y>> \o F(Y \ {y}) IN F(X)
-Default(k) == CASE k = "E" -> [rule |-> "re", sev |-> "ERROR", file |-> "main"]
-                [] k = "W" -> [rule |-> "rw", sev |-> "WARNING", file |-> "main"]
-                [] k = "I" -> [rule |-> "ri", sev |-> "INFO", file |-> "main"]
+ModName(i) == IF i = 1 THEN "mod1" ELSE "mod2"
+Default(k) == CASE k = "E" -> << [rule |-> "re", sev |-> "ERROR", file |-> "main"] >>
+                [] k = "W" -> << [rule |-> "rw", sev |-> "WARNING", file |-> "main"], [rule |-> "rw", sev |-> "WARNING", file |-> "main"] >>
+                [] k = "I" -> << [rule |-> "ri", sev |-> "INFO", file |-> "main"] >>
+                [] OTHER   -> <<>>                       \* X is suppressed by its ignore comment
+RECURSIVE Concat(_)
+Concat(ss) == IF ss = <<>> THEN <<>> ELSE Head(ss) \o Concat(Tail(ss))
+IncErrors(p, i) == CASE p.incs[i].kind = "diag"    -> << [rule |-> "re", sev |-> "ERROR", file |-> ModName(i)] >>
+                     [] p.incs[i].kind = "missing" -> << [rule |-> "rm", sev |-> "ERROR", file |-> "main"] >>
+                     [] OTHER                      -> <<>>
 LinterErrors(p) ==
   CASE p.main = "snip_noscope" -> << [rule |-> "rs", sev |-> "ERROR", file |-> "main"] >>
     [] p.main = "syntax"       -> <<>>
-    [] OTHER ->
-         (IF p.inc = "diag" THEN << [rule |-> "re", sev |-> "ERROR", file |-> "mod"] >> ELSE <<>>)
-         \o (IF p.inc = "missing" THEN << [rule |-> "rm", sev |-> "ERROR", file |-> "main"] >> ELSE <<>>)
-         \o SetToSeq({ Default(k) : k \in p.diags \ {"X"} })      \* X is suppressed by its ignore comment
-SyntaxError(p) == p.main = "syntax" \/ (p.main = "vcl" /\ p.inc = "syntax")
+    [] OTHER -> Concat([i \in DOMAIN p.incs |-> IncErrors(p, i)]) \o Concat([j \in 1..4 |-> IF <<"E", "W", "I", "X">>[j] \in p.diags THEN Default(<<"E", "W", "I", "X">>[j]) ELSE <<>>])
+\* lt.FatalError: some module that was loaded does not parse (it stays set whatever is loaded afterwards)
+IncFatal(p) == \E i \in DOMAIN p.incs : p.incs[i].kind \in {"syntax", "nest"}
+SyntaxError(p) == p.main = "syntax" \/ (p.main = "vcl" /\ IncFatal(p))
 
 Cells ==
   { [prog |-> p, ov |-> o, flags |-> f] : p \in Programs, o \in Overrides, f \in { x \in Flags : WellFormedFlags(x) } }
@@ -84,10 +99,14 @@ Cells ==
 \* {plain, -json} x {default, -vv}, and only where the program has a diagnostic of an overridden rule
 Touches(c) == \E i \in DOMAIN LinterErrors(c.prog) : c.ov[LinterErrors(c.prog)[i].rule] # "-"
 Sparse(c) ==
-  IF c.ov = NoOv THEN (c.flags.generated => c.flags.verb = 0)
+  IF Len(c.prog.incs) = 2 \/ (Len(c.prog.incs) = 1 /\ (c.prog.incs[1].at = "sub" \/ c.prog.incs[1].kind = "nest"))
+  THEN c.ov = NoOv /\ c.flags.verb = 0 /\ ~c.flags.generated
+  ELSE IF c.ov = NoOv THEN (c.flags.generated => c.flags.verb = 0)
   ELSE /\ ~c.flags.generated /\ c.flags.vsrc = "cli" /\ c.flags.verb \in {0, 2}
        /\ Touches(c)
-
+\* thorough tier: everything, except that two-include programs take two override settings and the command-line flags only
+Dense(c) == Len(c.prog.incs) = 2 => (c.ov \in {NoOv, [NoOv EXCEPT !["rs"] = "WARNING", !["rm"] = "WARNING"]}
+                                     /\ c.flags.vsrc = "cli" /\ ~c.flags.generated)
 
 (***************************************************************************)
 (* REQUIREMENT                                                             *)
@@ -124,7 +143,7 @@ Level == cell.flags.verb
 Ov == EffOv(cell)
 
 Init ==
-  /\ cell \in (IF Full THEN Cells ELSE { c \in Cells : Sparse(c) })
+  /\ cell \in (IF Full THEN { c \in Cells : Dense(c) } ELSE { c \in Cells : Sparse(c) })
   /\ pc = "parse_main" /\ todo = <<>>
   /\ errors = 0 /\ warnings = 0 /\ infos = 0 /\ parseErrs = 0 /\ jsonLint = 0
   /\ printed = [e |-> 0, w |-> 0, i |-> 0, parse |-> 0]
@@ -144,7 +163,7 @@ ParseMain ==
 \* and lt.Errors is dropped without being counted
 Lint ==
   /\ pc = "lint"
-  /\ IF cell.prog.inc = "syntax" /\ cell.prog.main = "vcl"
+  /\ IF cell.prog.main = "vcl" /\ IncFatal(cell.prog)
      THEN /\ parseErrs' = IF Json THEN 1 ELSE 0
           /\ printed' = IF Json THEN printed ELSE [printed EXCEPT !.parse = 1]
           /\ runErr' = TRUE /\ pc' = "run_return" /\ UNCHANGED todo
@@ -208,7 +227,7 @@ VerdictOK == Done => ((verdict # "-") => exit = 0)
 Terminates == <>Done
 
 Behaviour ==
-  [prog |-> [main |-> cell.prog.main, diags |-> SetToSeq(cell.prog.diags), inc |-> cell.prog.inc],
+  [prog |-> [main |-> cell.prog.main, diags |-> SetToSeq(cell.prog.diags), incs |-> cell.prog.incs],
    ov |-> cell.ov, flags |-> cell.flags, linter |-> LinterErrors(cell.prog),
    reqExit |-> ReqExit(cell), reqCounts |-> ReqCounts(cell), reqCountsDefined |-> ReqCountsDefined(cell),
    exit |-> exit, summary |-> summary, doc |-> doc, verdict |-> verdict,
